@@ -26,7 +26,7 @@ static __thread FILE *t_out;
 static __thread int t_in_expand;      /* between the ExpandBegin and Expand events of ?expand (growth request in progress) */
 static __thread long t_seq;
 #define MAX_EVENTS 4000   /* per scenario: a livelock in the library must not flood the trace */
-static int ev_mask = 0;
+static __thread int ev_mask = 0;     /* per thread: each scenario chooses its own event classes */
 static size_t quarantined;
 void (*slu_v_yield)(const char *where) = 0;
 
@@ -210,7 +210,7 @@ void slu_v_reset(void)
     t_seq = 0;
 }
 void slu_v_get(slu_v_ledger_t *o) { pthread_mutex_lock(&mu); *o = led; pthread_mutex_unlock(&mu); }
-long slu_v_mark(void) { return next_id; }
+long slu_v_mark(void) { long r; pthread_mutex_lock(&mu); r = next_id; pthread_mutex_unlock(&mu); return r; }
 long slu_v_live_since(long serial, int internal_only)
 {
     long c = 0; pthread_mutex_lock(&mu);
@@ -247,7 +247,7 @@ void slu_v_fail(const char *substr, int line, long k, int sticky)
     f_line = line; f_k = k; f_sticky = sticky; f_seen = 0; f_on = k > 0;
     pthread_mutex_unlock(&mu);
 }
-long slu_v_matching_allocs(void) { return f_seen; }
+long slu_v_matching_allocs(void) { long r; pthread_mutex_lock(&mu); r = f_seen; pthread_mutex_unlock(&mu); return r; }
 void slu_v_set_out(FILE *f) { t_out = f; t_seq = 0; }
 FILE *slu_v_get_out(void) { return t_out; }
 void slu_v_set_events(int m) { ev_mask = m; }
